@@ -35,6 +35,7 @@ func (d Dict) render(f *File, w io.Writer, s *Statement) error {
 		if err := k.render(f, buf, nil); err != nil {
 			return err
 		}
+		verifHook("dictkey", f, buf.String())
 		keys = append(keys, buf.String())
 		lookup[buf.String()] = kv{k: k, v: v}
 	}
